@@ -228,11 +228,15 @@ def case_set_st(draw):
         # filters: zz9 omits the text values no filtered respondent gave
         nv = draw(st.integers(1, 5))
         flavour = draw(st.sampled_from(["text", "text", "numeric"]))
-        cats = [{"id": i, "name": None, "missing": False, "value": None,
-                 "evalue": "t%d" % i if flavour == "text" else [i * 10, i * 10 + 10]}
-                for i in range(nv)]
-        cats.append({"id": -1, "name": "", "missing": True, "value": None,
-                     "evalue": {"?": -1}})
+        miss = {"id": -1, "name": "", "missing": True, "value": None, "evalue": {"?": -1}}
+        if flavour == "text":
+            # text: ids are positions, the missing element comes last
+            cats = [{"id": i, "name": None, "missing": False, "value": None, "evalue": "t%d" % i}
+                    for i in range(nv)] + [miss]
+        else:
+            # binned numeric (zz9): bins numbered 1..n, the missing element comes FIRST
+            cats = [miss] + [{"id": i + 1, "name": None, "missing": False, "value": None,
+                              "evalue": [i * 10, i * 10 + 10]} for i in range(nv)]
         answers = draw(st.lists(st.sampled_from([c["id"] for c in cats]), min_size=n,
                                 max_size=n))
         var = {"type": "cat", "flavour": flavour, "alias": "r", "name": "R", "cats": cats,
@@ -310,8 +314,8 @@ def _filter_response(sv, keep, weighted=False):
     new_els = []
     for i in kept:
         e = dict(els[i])
-        if not e.get("missing"):
-            e["id"] = len(new_els)
+        if not e.get("missing") and var.get("flavour") == "text":
+            e["id"] = len(new_els)   # text ids are positions within each response
         new_els.append(e)
     res["dimensions"][0]["type"]["elements"] = new_els
     res["counts"] = [counts[i] for i in kept]
